@@ -223,3 +223,18 @@ PROPS["C03"] = dict(
          "order, all in 3 independent sets of processes; every output must be byte-identical. non-trivial = not order-insensitive",
     assumptions=["no reference order is assumed: any fixed order passes", "a failing render is a fixed result too (anyoutcome)"],
 )
+
+PROPS["C18"] = dict(
+    level="exploration",
+    stages=[dict(name="enum", module="MC_C18", cfg={"quick": "MC_C18_quick.cfg", "thorough": "MC_C18_thorough.cfg"},
+                 timeout={"quick": 300, "thorough": 1500})],
+    nontrivial=lambda r: True,
+    rule="filter chains up to MaxChain over {sort, reverse, merge, slice, keys, default, first, last, join} on shared data of 7 Go "
+         "shapes ([]interface{} and []int with spare capacity, []string, [3]int, untyped and typed maps), re-observation of an "
+         "intermediate value after a later filter, 8 kinds of scope writes to a name that exists in the context, nested data behind "
+         "attributes; each case rendered twice with the SAME context value: both outputs equal the model's, deep snapshot of the "
+         "caller's data (incl. the elements between len and cap) unchanged",
+    assumptions=["values are immutable in the reference semantics, so Snapshot' = Snapshot is the specification; the verdict is an "
+                 "observation of the real code (deep snapshot), hence level exploration",
+                 "what join / last / sort / reverse / slice do to a map is not stated: maps only get keys, default, first, merge"],
+)
